@@ -186,6 +186,7 @@ def conformance(oset_name, seed, tries):
                     obj.attrs[name] = old
         samples += 1
         compared += len(held)
+        deterministic = not hn.inputs  # a script without inputs: further tries would repeat this one
         # compare per obligation name (a script may state extra obligations in one of the readings)
         def by_name(lst):
             d = {}
@@ -198,6 +199,8 @@ def conformance(oset_name, seed, tries):
         compared -= len(held) - sum(len(a[n]) for n in common)
         if diff:
             dis.append({"inputs": _jsonable(hn.inputs), "differs": {n: {"cpython": a[n], "pyvc": b[n]} for n in diff[:5]}})
+        if deterministic:
+            break
     return {"samples": samples, "compared": compared, "disagreements": dis}
 
 
